@@ -172,6 +172,21 @@ needs.update({
  "C07-x2": ("data setter derives N and datatype from the raw argument before converting it", "a rejected p.data = <tuple> whose length or kind differs from the stored data, then an NFFT assignment or recomputation"),
  "C07-x3": ("plot(sides=...) switches the object's sides temporarily and restores them at the end without try/finally", "plot(sides=<other>) that raises while drawing or saving, then continued use"),
 })
+
+needs.update({
+ "C06-y1": ("get_converted_psd decides 'has a Nyquist bin' from len(psd) == NFFT//2+1 (true for odd NFFT too)", "real data, odd NFFT, source onesided, target twosided/centerdc; round trips and power still hold, only the comparison with frequencies() shows it"),
+ "C06-y2": ("twosided_2_onesided folds into a view of its input (asarray + slice instead of a copy)", "real data, stored sides twosided, get_converted_psd('onesided') (the first answer is right), then any further conversion of the same object"),
+ "C06-y3": ("get_converted_psd memoised per target sides; cache cleared in the lazy-recompute branch of the psd getter only", "a conversion to fill the cache, then psd re-assigned (or parameter change + explicit call), then another conversion"),
+ "C06-z1": ("onesided_2_twosided halves the interior of the caller's float64 array in place", "float64 one-sided stored PSD, get_converted_psd('twosided'/'centerdc') as a query, then continued use of the object"),
+ "C06-z2": ("Range.centerdc_gen starts at -sampling/2 instead of (a - N//2)*df", "odd NFFT and sides centerdc: the axis is shifted by df/2 (no zero entry); even NFFT unaffected"),
+ "C06-z3": ("get_converted_psd infers the Nyquist bin from len(psd) % 2 == 1", "real data, one-sided PSD, NFFT mod 4 in {2, 3}, conversion to twosided/centerdc"),
+ "C07-y1": ("NFFT setter writes the Range copy before the shared 'must be positive' assertion and the Spectrum copy after it", "a rejected negative integer NFFT on an existing object, then continued use (df, frequencies())"),
+ "C07-y2": ("psd getter clears the modified flag before computing", "computed PSD, an assignment that makes __call__ raise, the failed read caught, psd read again with no setter in between"),
+ "C07-y3": ("data setter updates Range.N but not the Spectrum copy of NFFT when NFFT equals the old data length", "NFFT equal to len(data) on an existing object, then data of another length assigned"),
+ "C07-z1": ("psd getter clears the modified flag before computing (other author; demonstrated by removing the cause through the plain attribute NSIG)", "computed PSD, data assigned, lazy read raising inside __call__, psd read again"),
+ "C07-z2": ("run() returns early when a PSD exists and modified is False", "an explicit run() on an already computed object after assigning a class-specific plain attribute (NSIG, threshold, criteria, method, NW), which no listed setter flags"),
+ "C07-z3": ("ma_order setter compares the new value with ar_order (copy-paste comparand)", "parma only: ma_order assigned a new value equal to the current ar_order after a PSD was computed"),
+})
 res = json.load(open('/verif/seeded/RESULTS.json'))
 for sid, (mech, need) in needs.items():
     d = '/verif/seeded/' + sid
